@@ -1,5 +1,6 @@
 """Contracts, registry, path exploration and discharge of obligations (DESIGN 3.1, 3.7, 3.9)."""
 import ast
+import json
 import hashlib
 import os
 import time
@@ -123,6 +124,62 @@ class Registry:
         return n
 
 
+def ordered_locals(fnode):
+    """local names of a function in order of first binding (source order); parameters and comprehension variables excluded"""
+    params = {a.arg for a in fnode.args.posonlyargs + fnode.args.args + fnode.args.kwonlyargs}
+    if fnode.args.vararg:
+        params.add(fnode.args.vararg.arg)
+    if fnode.args.kwarg:
+        params.add(fnode.args.kwarg.arg)
+    found = []
+
+    def visit(n, top):
+        if isinstance(n, (ast.ListComp, ast.SetComp, ast.DictComp, ast.GeneratorExp, ast.Lambda)):
+            return
+        if isinstance(n, (ast.FunctionDef, ast.AsyncFunctionDef, ast.ClassDef)) and not top:
+            found.append((n.lineno, n.col_offset, n.name))
+            return
+        if isinstance(n, ast.Name) and isinstance(n.ctx, ast.Store):
+            found.append((n.lineno, n.col_offset, n.id))
+        for ch in ast.iter_child_nodes(n):
+            visit(ch, False)
+    visit(fnode, True)
+    out = []
+    for _, _, nm in sorted(found):
+        if nm not in params and nm not in out:
+            out.append(nm)
+    return out
+
+
+_BASELINE_LOCALS = None
+
+
+def local_renaming(file, qualname, fnode):
+    """{name in the pinned tree -> name in the current code} when the current function binds the same sequence of locals as the
+    pinned one except that some names were consistently replaced by new ones (a pure renaming); {} otherwise"""
+    global _BASELINE_LOCALS
+    if _BASELINE_LOCALS is None:
+        try:
+            _BASELINE_LOCALS = json.load(open(os.path.join(os.path.dirname(os.path.dirname(os.path.dirname(os.path.abspath(__file__)))), 'baseline_locals.json')))
+        except Exception:
+            _BASELINE_LOCALS = {}
+    B = (_BASELINE_LOCALS.get(file) or {}).get(qualname)
+    if not B or fnode is None:
+        return {}
+    C = ordered_locals(fnode)
+    if B == C:
+        return {}
+    gone = [b for b in B if b not in C]
+    new = [c for c in C if c not in B]
+    if not gone or len(gone) != len(new):
+        return {}
+    Bp = ['#%d' % gone.index(b) if b in gone else b for b in B]
+    Cp = ['#%d' % new.index(c) if c in new else c for c in C]
+    if Bp != Cp:
+        return {}
+    return dict(zip(gone, new))
+
+
 class Unit:
     """one function x one case, prepared for execution"""
 
@@ -141,8 +198,10 @@ class Unit:
         self.local_sorts = getattr(contract, 'local_sorts', None) or {}
         self.name = '%s[%s]' % (contract.qualname, case.name)
         self._loop_ord = {}
+        self.rename = {}
         if self.node is None:
             return
+        self.rename = local_renaming(contract.file, contract.qualname, self.node)
         if self.node is not None:
             loops = [x for x in ast.walk(self.node) if isinstance(x, (ast.For, ast.While))]
             loops.sort(key=lambda x: (x.lineno, x.col_offset))
